@@ -148,3 +148,8 @@ def depth_guarded(ctx, W, comp):
                         return False, "%s recurses with %s + %d but no upper bound on %s holds at the recursive call (%s)" % (
                             f.split("::")[-1], fn.locals[i].get("name"), la[1], fn.locals[i].get("name"), fn.loc(bb))
     return False, "no parameter with a bounded, strictly increasing value found on the cycle %s" % sorted(x.split("::")[-1] for x in comp)
+
+
+def fixture(fctx):
+    import fixture_checks
+    return fixture_checks.nopanic_alive(fctx) + fixture_checks.recursion_alive(fctx, depth_guarded)
